@@ -602,3 +602,62 @@ where
         }
     }
 }
+
+// Verification hooks, compiled only with `--features verif-hooks`.
+#[cfg(feature = "verif-hooks")]
+impl<RxStreamT, TxStreamT> Context<RxStreamT, TxStreamT> {
+    /// Records that the previous connection was lost `secs_ago` seconds ago
+    /// (production code never assigns `disconnection_timestamp`).
+    pub fn verif_mark_disconnected(&mut self, secs_ago: u64) {
+        self.connection.disconnection_timestamp =
+            Some(SystemTime::now() - std::time::Duration::from_secs(secs_ago));
+    }
+
+    /// Canonical dump of the bookkeeping state.
+    pub fn verif_snapshot(&self) -> String {
+        fn hex(bytes: &[u8]) -> String {
+            bytes.iter().map(|b| format!("{:02x}", b)).collect()
+        }
+
+        let awaiting: Vec<String> = self
+            .session
+            .awaiting_ack
+            .iter()
+            .map(|(id, _)| format!("{:x}", id))
+            .collect();
+        let subscriptions: Vec<String> = self
+            .session
+            .subscriptions
+            .iter()
+            .map(|(id, _)| format!("{}", id))
+            .collect();
+        let retransmit: Vec<String> = self
+            .session
+            .retrasmit_queue
+            .iter()
+            .map(|(id, packet)| format!("{:x}:{}", id, hex(packet)))
+            .collect();
+        let inbound_qos2: Vec<String> = self
+            .session
+            .inbound_qos2
+            .iter()
+            .map(|id| format!("{}", id))
+            .collect();
+
+        format!(
+            "quota={} rmax={} maxpkt={} sei={} disc={} await=[{}] subs=[{}] retx=[{}] inq2=[{}]",
+            self.connection.send_quota,
+            self.connection.remote_receive_maximum,
+            self.connection
+                .remote_max_packet_size
+                .map(|val| val.to_string())
+                .unwrap_or_else(|| "-".into()),
+            self.connection.session_expiry_interval,
+            self.connection.disconnection_timestamp.is_some() as u8,
+            awaiting.join(","),
+            subscriptions.join(","),
+            retransmit.join(","),
+            inbound_qos2.join(","),
+        )
+    }
+}
